@@ -32,8 +32,22 @@ def tree_hash():
                 files.append(os.path.join(root, f))
     for f in TOP_FILES:
         files.append(os.path.join(REPO, f))
-    for extra in [os.path.join(VERIF, "harness", "vharness.cc")]:
-        files.append(extra)
+    return _hash_files(h, files)
+
+
+def harness_files():
+    fs = [os.path.join(VERIF, "harness", "vharness.cc")]
+    ops = os.path.join(VERIF, "harness", "ops")
+    if os.path.isdir(ops):
+        fs += [os.path.join(ops, f) for f in sorted(os.listdir(ops)) if f.endswith(".inc")]
+    return fs
+
+
+def harness_hash():
+    return _hash_files(hashlib.sha256(), harness_files())
+
+
+def _hash_files(h, files):
     for p in files:
         try:
             with open(p, "rb") as fh:
@@ -61,18 +75,40 @@ def ensure_build(flavour="asan"):
     fcntl.flock(lock, fcntl.LOCK_EX)
     try:
         hsh = tree_hash()
+        hh = harness_hash()
         d = os.path.join(WORK, f"repo-{hsh}-{flavour}")
-        harness = os.path.join(d, "vharness")
+        harness = os.path.join(d, f"vharness-{hh}")
         vata = os.path.join(d, "b", "cli", "vata")
-        res = dict(dir=d, harness=harness, vata=vata, hash=hsh, built=False, log=os.path.join(d, "build.log"))
+        res = dict(dir=d, harness=harness, vata=vata, hash=hsh + "+" + hh, built=False, log=os.path.join(d, "build.log"))
+        src = os.path.join(d, "src")
+        flags = FLAVOURS[flavour]
+        log = res["log"]
+
+        def link_harness():
+            lib = os.path.join(d, "b", "src", "libvata.a")
+            hsrc = os.path.join(VERIF, "harness", "vharness.cc")
+            cmd = (f"g++ -std=c++11 {flags} -Wno-deprecated-declarations -I{src}/include -I{src}/src -I{src} "
+                   f"{hsrc} {lib} -o {harness}.tmp && mv {harness}.tmp {harness}")
+            rc, out = run(cmd, log=log)
+            if rc != 0:
+                raise RuntimeError("harness build failed:\n" + out[-6000:])
+            for old in os.listdir(d):
+                if old.startswith("vharness-") and os.path.join(d, old) != harness and not old.endswith(".tmp"):
+                    try:
+                        os.remove(os.path.join(d, old))
+                    except OSError:
+                        pass
+
         if os.path.exists(os.path.join(d, "OK")):
             os.utime(d)
+            if not os.path.exists(harness):
+                link_harness()               # only the harness sources changed: the library tree is reused
+                res["built"] = True
             res["wall_s"] = time.time() - t0
             return res
         if os.path.exists(d):
             shutil.rmtree(d)
         os.makedirs(d)
-        src = os.path.join(d, "src")
         os.makedirs(src)
         for sd in SRC_DIRS:
             shutil.copytree(os.path.join(REPO, sd), os.path.join(src, sd))
@@ -83,8 +119,6 @@ def ensure_build(flavour="asan"):
             os.makedirs(os.path.join(src, sub), exist_ok=True)
             with open(os.path.join(src, sub, "CMakeLists.txt"), "w") as fh:
                 fh.write("")
-        log = res["log"]
-        flags = FLAVOURS[flavour]
         link = "-fsanitize=address,undefined" if "fsanitize" in flags else ""
         rc, out = run(["cmake", "-G", "Ninja", "-S", src, "-B", os.path.join(d, "b"), "-DCMAKE_BUILD_TYPE=None",
                        f"-DCMAKE_CXX_FLAGS={flags}", f"-DCMAKE_EXE_LINKER_FLAGS={link}"], log=log)
@@ -93,13 +127,7 @@ def ensure_build(flavour="asan"):
         rc, out = run(["ninja", "-C", os.path.join(d, "b"), "-j16", "libvata", "vata"], log=log)
         if rc != 0:
             raise RuntimeError("build of /repo's working tree failed:\n" + out[-4000:])
-        lib = os.path.join(d, "b", "src", "libvata.a")
-        hsrc = os.path.join(VERIF, "harness", "vharness.cc")
-        cmd = (f"g++ -std=c++11 {flags} -Wno-deprecated-declarations -I{src}/include -I{src}/src -I{src} "
-               f"{hsrc} {lib} -o {harness}")
-        rc, out = run(cmd, log=log)
-        if rc != 0:
-            raise RuntimeError("harness build failed:\n" + out[-6000:])
+        link_harness()
         open(os.path.join(d, "OK"), "w").write(hsh)
         res["built"] = True
         # keep the five most recent trees
